@@ -86,9 +86,29 @@ type vfC09nKey struct {
 }
 
 type vfC09nSnapshot struct {
-	Keys   []vfC09nKey `json:"keys"`
-	Errors []string    `json:"errors"`
-	Now    int64       `json:"now"`
+	Keys     []vfC09nKey `json:"keys"`
+	Errors   []string    `json:"errors"`
+	Now      int64       `json:"now"`
+	ClockLag int64       `json:"clocklag"` // largest observed lag (s) of a db's own clock behind real time in this process
+}
+
+// vfC09nClockLag: on a starved machine LockDB.currentTime (advanced by a
+// goroutine that hands every second to the sweepers) falls behind real time;
+// deadlines computed meanwhile are off by up to that lag.
+var vfC09nClockLag int64
+
+func vfC09nWatchClock(s *SLock) {
+	for {
+		now := time.Now().Unix()
+		for d := 0; d < 256; d++ {
+			if db := s.dbs[d]; db != nil {
+				if lag := now - db.currentTime; lag > atomic.LoadInt64(&vfC09nClockLag) {
+					atomic.StoreInt64(&vfC09nClockLag, lag)
+				}
+			}
+		}
+		time.Sleep(10 * time.Millisecond)
+	}
 }
 
 type vfC09nInfo struct {
@@ -116,7 +136,7 @@ type vfC09nInfo struct {
 func vfC09nAofId(id [16]byte) string { return hex.EncodeToString(id[:]) }
 
 func vfC09nTakeSnapshot(s *SLock) *vfC09nSnapshot {
-	snap := &vfC09nSnapshot{Now: time.Now().Unix()}
+	snap := &vfC09nSnapshot{Now: time.Now().Unix(), ClockLag: atomic.LoadInt64(&vfC09nClockLag)}
 	for d := 0; d < 256; d++ {
 		db := s.dbs[d]
 		if db == nil {
@@ -206,7 +226,7 @@ func vfC09nGetInfo(s *SLock) *vfC09nInfo {
 	in.AofIndex, in.AofOffset = aof.aofFileIndex, aof.aofFileOffset
 	aof.aofGlock.Unlock()
 	aof.glock.Lock()
-	in.Rewriting = aof.isRewriting || aof.isWaitRewite
+	in.Rewriting = aof.isRewriting
 	aof.glock.Unlock()
 	bq := rm.bufferQueue
 	in.RingSeq, in.RingSize, in.RingUsed, in.RingDup = bq.seq, bq.bufferSize, bq.usedBufferSize, bq.dupCount
@@ -337,6 +357,7 @@ func TestVerifC09Node(t *testing.T) {
 	port := srv.server.Addr().(*net.TCPAddr).Port
 	sc.Port = uint(port)
 	go srv.Serve()
+	go vfC09nWatchClock(s)
 	out := bufio.NewWriter(os.Stdout)
 	reply := func(v interface{}) {
 		b, _ := json.Marshal(v)
